@@ -185,7 +185,7 @@ def build(repo=None):
                 module_mutables.add(n.target.id)
         # module-level mutable containers other than constant tables must not exist in the check modules
         tables = {"bools", "uints", "ints", "float8", "floats", "complexes", "_union_types"}
-        ob(f"C06:no-module-level-mutable-container-in-{rel.split('/')[-1]}", module_mutables <= tables, ["C06", "C12"] + (["C08"] if rel.endswith("_pytree_type.py") else []) + (["C03", "C20"] if rel.endswith("_array_types.py") else []), found=sorted(module_mutables - tables))
+        ob(f"C06:no-module-level-mutable-container-in-{rel.split('/')[-1]}", module_mutables <= tables, ["C06", "C12", "C17"] + (["C08"] if rel.endswith("_pytree_type.py") else []) + (["C03", "C20"] if rel.endswith("_array_types.py") else []), found=sorted(module_mutables - tables))
     # the vendored checker that PyTree leaf checks run through: its module-level containers are the documented ones (two weak caches keyed by the function /
     # code object, two constant dispatch tables); anything else could carry a verdict from one check to the next
     tg = get("jaxtyping/_typeguard/__init__.py")
@@ -243,7 +243,7 @@ def build(repo=None):
         return item[0] == "_decorator.py" and item[2] == "_tb_flag" and item[1] in top_fns and item[1] in jt_callees and flag_writes_off
 
     for item in sorted(set(inventory)):
-        ob(f"C12:process-global-write-is-a-documented-setter[{item[0]}:{item[1]}:{item[2]}]", is_documented(item), ["C12"], why=documented.get(item, "one-time registration of the JAX traceback exclusion (helper of jaxtyped)" if is_documented(item) else "UNDOCUMENTED process-global write"))
+        ob(f"C12:process-global-write-is-a-documented-setter[{item[0]}:{item[1]}:{item[2]}]", is_documented(item), ["C12"] + (["C03", "C17", "C20"] if item[0] == "_array_types.py" else []), why=documented.get(item, "one-time registration of the JAX traceback exclusion (helper of jaxtyped)" if is_documented(item) else "UNDOCUMENTED process-global write"))
     found = set(inventory) | {("_decorator.py", "jaxtyped", "fn.__init__")}
     if any(i_[0] == "_decorator.py" and i_[2] == "_tb_flag" and is_documented(i_) for i_ in inventory):
         found.add(("_decorator.py", "jaxtyped", "_tb_flag"))
